@@ -168,6 +168,10 @@ fn ensure(w: &mut World) {
 }
 
 pub fn draw_origin(w: &mut World, n: usize) -> Option<String> {
+    if w.cfg.sticky_undo && n == 0 && w.cfg.profile != "undo" {
+        // sticky / gc profiles with an undo manager on node 0: its own edits are the tracked ones
+        return Some("user".into());
+    }
     if w.cfg.profile != "undo" || n != 0 {
         return None;
     }
